@@ -1038,8 +1038,8 @@ func (g *c04Gen) typ(depth int, defect bool) reflect.Type {
 	case 3:
 		e := g.typ(depth-1, defect)
 		if !defect {
-			// pointers to slices, maps, interfaces and media are known not to come back
-			for e.Kind() == reflect.Map || e.Kind() == reflect.Interface || e == c04TMedia ||
+			// pointers to slices, maps and interfaces are known not to come back
+			for e.Kind() == reflect.Map || e.Kind() == reflect.Interface ||
 				(e.Kind() == reflect.Slice && c04BuilderAKind(e.Elem().Kind()) == "") {
 				e = g.leafType()
 			}
@@ -1676,7 +1676,11 @@ func c04Zoo() []c04ZooEntry {
 	add("defect-ptr-slice", &[]string{"x"})
 	add("defect-ptr-map", &map[string]int{"a": 1})
 	add("defect-ptr-iface", func() *interface{} { var i interface{} = 1; return &i }())
-	add("defect-ptr-media", &types.Media{MediaType: "a/b", Data: []byte{1, 2}})
+	add("defect-ptr-media", &types.Media{MediaType: "a/b", Data: []byte{1, 2}}) // repaired by bfbf710; kept as a directed input
+	add("ptr-media-in-struct", struct {
+		M *types.Media
+		L []*types.Media
+	}{&types.Media{MediaType: "text/plain"}, []*types.Media{{MediaType: "a/b", Data: []byte{9}}, nil}})
 	add("defect-edge", types.Edge{Source: "a", Description: 1, Destination: "b"})
 	add("defect-edge-in-list", []interface{}{types.Edge{Source: "a", Description: nil, Destination: 2}})
 	add("defect-named-elem-duration", []time.Duration{1, 2})
@@ -1894,9 +1898,23 @@ func (r *c04Run) verdict(root reflect.Value) (ok bool, class, got string) {
 	return true, "", ""
 }
 
+// repaired: pointer-to-media by /repo commit bfbf710 (ptrBuilder.BuildFromMedia builds into ptr.Elem())
+var c04Repaired = map[string]bool{"pointer-to-media": true}
+
 func c04Key(root reflect.Value, class, format string) string {
 	feats := []string{}
 	c04Features(root, format, &feats)
+	// constructs repaired in /repo name a failure only when nothing else can (so that a regression on
+	// the directed input is reported under the old key, and they never hide another construct)
+	open := []string{}
+	for _, f := range feats {
+		if !c04Repaired[f] {
+			open = append(open, f)
+		}
+	}
+	if len(open) > 0 {
+		feats = open
+	}
 	if len(feats) > 0 {
 		return "C04/" + feats[0] + "/" + format
 	}
@@ -2057,6 +2075,9 @@ func c04One(c *Ctx, cf *caseFile, gen string, root reflect.Value, withCase bool)
 		c.Dist("kind/" + root.Kind().String())
 		c.Dist(fmt.Sprintf("outcome/%s/ok=%v", format, ok))
 		c.Dist("builder/" + format + "/" + r.Obs)
+		for len(feats) > 0 && c04Repaired[feats[0]] {
+			feats = feats[1:]
+		}
 		if len(feats) > 0 {
 			c.Dist("known-defect-construct/" + feats[0])
 		} else {
